@@ -20,6 +20,9 @@ pub const STEP_BUDGET: u64 = 300_000;
 pub const BIG_STEP_BUDGET: u64 = 200_000_000;
 
 thread_local! {
+    /// Positions in the full sweep of the schedules handed to
+    /// `first_divergence` (set only when replaying a pair).
+    static POSITIONS: std::cell::RefCell<Option<Vec<usize>>> = std::cell::RefCell::new(None);
     static BUDGET: std::cell::Cell<u64> = std::cell::Cell::new(STEP_BUDGET);
     static BIG: Corpus = Corpus::load("/verif/corpus_big");
 }
@@ -199,6 +202,13 @@ fn first_divergence(code: &[u8], knobs: &Knobs, scheds: &[Sched], res: Option<&m
     let sweep: Vec<&Sched> = scheds.iter().chain(std::iter::once(&again)).collect();
     for (i, s) in sweep.into_iter().enumerate() {
         let i = if i == scheds.len() { 0 } else { i };
+        // (a replay of two schedules out of the sweep keeps their positions)
+        let i = POSITIONS.with(|p| p.borrow().as_ref().and_then(|v| v.get(i).copied()).unwrap_or(i));
+        // Every fifth run builds its type-checker configuration the way
+        // `tc::Config::default()` does, with a slot-hash table of its own
+        // made by the library; the others share one table per worker, as
+        // `StorageSlotHashes::new_with_hashes` is documented to allow.
+        sim::set_own_table(i % 5 == 4);
         let mut sc = Scenario::simple(code.to_vec());
         sc.knobs = knobs.clone();
         sc.sched = s.clone();
@@ -213,6 +223,7 @@ fn first_divergence(code: &[u8], knobs: &Knobs, scheds: &[Sched], res: Option<&m
         // halt is C03's business and is left out of the comparison here.
         sc.wd = WdPlan::budget(1, BUDGET.with(std::cell::Cell::get));
         let out = sim::run(&sc, &opts);
+        sim::set_own_table(false);
         if out.budget_exhausted {
             if let Some(r) = res.as_deref_mut() {
                 r.runs += 1;
@@ -374,7 +385,7 @@ impl Check for C02Check {
         CheckInfo {
             id: "C02",
             level: "exploration",
-            rule: "case = one generated program (storage idioms 60%, stack-aware 20%, control-flow 10%, mutated corpus 10%) + knobs (default 70%, swarm 30%), analysed under a reference schedule and S further schedules (natural hash keys, reverse-all, fold sorted by kind asc/desc, shuffle-all, seeded random site subsets), rotating through the three ways of calling the pipeline (analyze(), the staged extractor calls, VM + type-checker phases one by one); one case in three is also run under three schedules with a stop request (sticky, or visible to one poll only) at the same poll index at interval 1, half of the time a poll made by the unifier, and where all three runs saw the request their results must be equal; evaluations = simulated runs; a run is non-trivial when the unifier folded at least one class holding >= 2 pieces of evidence; distinct = distinct (program, fold-order digest) pairs, counted with a hash set",
+            rule: "case = one generated program (storage idioms 60%, stack-aware 20%, control-flow 10%, mutated corpus 10%) + knobs (default 70%, swarm 30%), analysed under a reference schedule and S further schedules (natural hash keys, reverse-all, fold sorted by kind asc/desc, shuffle-all, seeded random site subsets), rotating through the three ways of calling the pipeline (analyze(), the staged extractor calls, VM + type-checker phases one by one), every fifth run with a slot-hash table of its own built by the library instead of the table shared by the worker's analyses; one case in three is also run under three schedules with a stop request (sticky, or visible to one poll only) at the same poll index at interval 1, half of the time a poll made by the unifier, and where all three runs saw the request their results must be equal; evaluations = simulated runs; a run is non-trivial when the unifier folded at least one class holding >= 2 pieces of evidence; distinct = distinct (program, fold-order digest) pairs, counted with a hash set",
             assumptions: &[
                 "all order-sensitive iteration in the library goes through std HashMap/HashSet, which the cfg hook replaces (BiMap in the slot-hash table is only used for keyed look-ups)",
                 "equality of results is the library's own StorageLayout PartialEq (conflict payloads ignored) plus the success/failure class",
@@ -422,7 +433,7 @@ impl Check for C02Check {
                     property:  "C02".into(),
                     signature: sig,
                     detail:    json!({"case": idx, "seed": seed, "contract": name, "program_len": code.len(), "schedule_a": scheds[0].label(), "schedule_b": scheds[ix].label(), "explanation": detail}),
-                    replay:    json!({"check": "C02", "kind": "pair", "code": hex::encode(&code), "knobs": knobs, "sched_a": scheds[0], "sched_b": scheds[ix], "big": true}),
+                    replay:    json!({"check": "C02", "kind": "pair", "code": hex::encode(&code), "knobs": knobs, "sched_a": scheds[0], "sched_b": scheds[ix], "index_b": ix, "big": true}),
                 });
             }
             return res;
@@ -449,7 +460,7 @@ impl Check for C02Check {
                 property:  "C02".into(),
                 signature: sig,
                 detail:    json!({"case": idx, "seed": seed, "program": hex::encode(&small), "original_len": code.len(), "minimised_len": small.len(), "schedule_a": scheds[0].label(), "schedule_b": scheds[ix].label(), "explanation": detail}),
-                replay:    json!({"check": "C02", "kind": "pair", "code": hex::encode(&small), "knobs": knobs, "sched_a": scheds[0], "sched_b": scheds[ix]}),
+                replay:    json!({"check": "C02", "kind": "pair", "code": hex::encode(&small), "knobs": knobs, "sched_a": scheds[0], "sched_b": scheds[ix], "index_b": ix}),
             });
         }
         // One case in three: the same analysis *cancelled at the same poll*
@@ -493,7 +504,12 @@ impl Check for C02Check {
         if payload["big"].as_bool() == Some(true) {
             BUDGET.with(|x| x.set(BIG_STEP_BUDGET));
         }
-        if first_divergence(&code, &knobs, &scheds, None).is_none() {
+        if let Some(ix) = payload["index_b"].as_u64() {
+            POSITIONS.with(|p| *p.borrow_mut() = Some(vec![0, ix as usize, 0]));
+        }
+        let diverged = first_divergence(&code, &knobs, &scheds, None).is_some();
+        POSITIONS.with(|p| *p.borrow_mut() = None);
+        if !diverged {
             return Ok(None);
         }
         let (sig, detail) = signature(&code, &knobs, &a, &b);
